@@ -119,8 +119,11 @@ def _spell(rng, kind, d):
         return rng.choice([['int', y], ['str', f"{y:04d}"], ['int', y]])
     if kind == 'month':
         r = rng.random()
-        if r < 0.4:
+        if r < 0.3:
             return ['tuple', [y, m]]
+        if r < 0.4:
+            # two strings convertable to an int (documented; finding F22)
+            return ['tuplestr', [str(y), rng.choice([str(m), f"{m:02d}"])]]
         if r < 0.5:
             return ['tuple', [y, m, rng.randint(0, 40)]]
         return ['str', f"{y:04d}-{m:02d}"]
@@ -141,6 +144,8 @@ def _invalid(rng, pool):
         return ['tuple', rng.choice([[y, 13], [y, 0], [0, 1], [10000, 1], [-5, 3], [y, -3],
                                      [y, 100], [20201, 1], [y], [], [2**31, 1]])]
     if r < 0.88:
+        if rng.random() < 0.3:
+            return ['tuplestr', [str(y), rng.choice(['13', '0', '00'])]]
         return ['tuplebad', rng.choice(['str', 'float', 'mixed'])]
     if r < 0.92:
         return ['bool', False]
@@ -354,8 +359,10 @@ def _py_validity(v):
         return v[1]
     if k == 'tuple':
         return tuple(v[1])
+    if k == 'tuplestr':
+        return tuple(v[1])
     if k == 'tuplebad':
-        return {'str': ('2020', '03'), 'float': (2020.0, 3), 'mixed': (2020, '03')}[v[1]]
+        return {'str': ('2020', 'March'), 'float': (2020.0, 3), 'mixed': (2020, '03')}[v[1]]
     if k == 'date':
         return _dt.date(v[1], v[2], v[3])
     if k == 'datetime':
@@ -476,6 +483,8 @@ def _cvspec(v):
         if len(l) == 2:
             return f"(VTuple {cz(l[0])} {cz(l[1])})"
         return f"(VTupleL {clist([cz(x) for x in l])})"
+    if k == 'tuplestr':
+        return f"(VTuple {cz(int(v[1][0]))} {cz(int(v[1][1]))})"
     if k == 'tuplebad':
         return 'VTupleNonInt'
     if k == 'date':
@@ -580,6 +589,9 @@ def o_validity(v):
         if len(l) > 2:
             return ('unspecified',)      # documented: a tuple of TWO ints
         return ('ok', ('month', l[0], l[1])) if _valid(l[0], l[1]) else ('bad',)
+    if k == 'tuplestr':
+        y, m = int(v[1][0]), int(v[1][1])
+        return ('ok', ('month', y, m)) if _valid(y, m) else ('bad',)
     if k == 'str':
         s = v[1]
         if _RE_DAY.match(s):
